@@ -87,7 +87,7 @@ fn plans(prop: &'static str, sweep_prop: &str, tier: &str) -> Vec<Plan> {
             out.push(Plan { name: "c19-counts", cfgs: starts(Cfg { full_setters: false, max_subs: 3, max_handles: 3, max_weaks: 2, ..base(prop) }), depth: if q { 4 } else { 5 } });
         }
         "C20" => {
-            out.push(Plan { name: "c20-values", cfgs: starts(Cfg { guards: true, ..base(prop) }), depth: if q { 3 } else { 4 } });
+            out.push(Plan { name: "c20-values", cfgs: starts(Cfg { guards: true, ..base(prop) }), depth: if q { 4 } else { 5 } });
         }
         _ => {}
     }
